@@ -1,7 +1,8 @@
 SPECIFICATION Spec
 CONSTANT Tab <- Schemas
 CONSTANT Depth = 4
-CONSTANT Sample = 40
+CONSTANT Rich = TRUE
+CONSTANT Sample = 0
 INVARIANT ValidCase
 INVARIANT RoundTrip
 INVARIANT Stable
